@@ -11,6 +11,7 @@ search: the property's oracle (window / last-page flag / stability / no duplicat
 """
 import os
 import random
+import shutil
 
 import vlib
 
@@ -213,6 +214,247 @@ def run_unit(ctx, rmodel, exe, ncases):
     return stats, cases, nontrivial
 
 
+# --------------------------------------------------------------------------- API level (stock schemas)
+
+SYLL = ["a", "ai", "an", "ba", "bu", "chang", "chu", "da", "de", "di", "e", "er", "fa", "ge", "guo", "hao", "he", "ji",
+        "jia", "ke", "li", "ma", "mei", "ni", "nv", "o", "pin", "qi", "ren", "shi", "shuo", "ta", "tian", "wo", "wu",
+        "xi", "xian", "xue", "yi", "yin", "you", "yu", "zai", "zhong", "zi", "zuo", "lve", "xiong", "zhuang"]
+OPENCC = "/usr/share/opencc"
+CORPUS = os.path.join(vlib.VERIF, "corpus", "C04", "api.txt")
+
+
+def api_cases(rng, n, with_opencc, stats, long_lists=False):
+    cases = []
+    # corpus first: inputs that failed once (schema options keys)
+    try:
+        for l in open(CORPUS):
+            f = l.split()
+            if len(f) == 3 and not l.startswith("#") and (with_opencc or f[1] == "-"):
+                cases.append((f[0], f[1], f[2], ["x", "i 0 8", "v 0", "x"]))
+    except FileNotFoundError:
+        pass
+    stats["corpus_cases"] = len(cases)
+    for k in range(n):
+        schema = rng.choice(["luna_pinyin", "cangjie5"])
+        opts = "-"
+        r = rng.random()
+        if schema == "luna_pinyin":
+            if r < 0.45:
+                keys = "".join(rng.choice(SYLL) for _ in range(rng.choice([1, 1, 2, 2, 3, 4])))
+            elif r < 0.6:
+                keys = "".join(rng.choice("abcdefghijklmnopqrstuwxyz") for _ in range(rng.choice([1, 2, 3, 4])))
+            elif r < 0.7:
+                keys = "`" + "".join(rng.choice("abcdefghijklmnopqrstuvwxy") for _ in range(rng.choice([1, 2, 3])))
+            elif r < 0.8:
+                keys = rng.choice(["/", "|", "$", "[", "~", "%", "*"])
+            else:
+                keys = rng.choice(SYLL) + "'" + rng.choice(SYLL)
+            if with_opencc and rng.random() < 0.06:
+                opts = rng.choice(["zh_simp=1", "zh_tw=1"])
+        else:
+            if r < 0.75:
+                # one-letter codes list 7k-27k completions (quadratic in librime's uniquifier): thorough only, rarely
+                ln = 1 if (long_lists and rng.random() < 0.02) else rng.choice([2, 2, 3, 3, 4, 5])
+                keys = "".join(rng.choice("abcdefghijklmnopqrstuvwxy") for _ in range(ln))
+            elif r < 0.85:
+                keys = "`" + rng.choice(SYLL)
+            elif r < 0.92:
+                keys = "z" + "".join(rng.choice("abcdefghijklmnopqrstuvwxy") for _ in range(rng.choice([1, 2])))
+            else:
+                keys = rng.choice(["/", "|", "$", "["])
+            if rng.random() < 0.15:
+                opts = "extended_charset=1"
+            elif with_opencc and rng.random() < 0.08:
+                opts = "simplification=1"
+                keys = keys if len(keys) >= 2 else keys + rng.choice("abcdefghijklmnopqrstuvwxy")
+        nops = rng.choice([3, 5, 8, 12])
+        ops = []
+        for _ in range(nops):
+            q = rng.random()
+            if q < 0.3:
+                ops.append("x")
+            elif q < 0.42:
+                ops.append("v %d" % (0 if rng.random() < 0.7 else 1))
+            elif q < 0.52:
+                ops.append("h %d" % rng.choice([0, 1, 4, 5, 6, 9, 10, 23, 57, 200, 5000]))
+            elif q < 0.58:
+                ops.append("o %d" % rng.randrange(6))
+            elif q < 0.75:
+                ops.append("i %d %d" % (rng.choice([0, 0, 1, 4, 5, 6, 11, 30, 99, 1000]), rng.choice([1, 5, 6, 20])))
+            else:
+                ops.append(rng.choice(["NP", "NP", "NP", "PP", "NC", "NC", "PC"]))
+        ops.append("x")
+        cases.append((schema, opts, keys, ops))
+        stats["schema:" + schema] = stats.get("schema:" + schema, 0) + 1
+        stats["opts:" + opts] = stats.get("opts:" + opts, 0) + 1
+    return cases
+
+
+def parse_api(line):
+    """-> (ps, [obs], [(text, comment)] reference list, nodup)"""
+    parts = [p.strip() for p in line.split(" ; ")]
+    ps, obs, ref, nd = None, [], None, None
+    for p in parts:
+        f = p.split()
+        if not f:
+            continue
+        if f[0] == "PS":
+            ps = int(f[1])
+        elif f[0] == "LC":
+            ref = []
+            for it in f[2:]:
+                i, rest = it.split("=", 1)
+                t, c = rest.split(":")
+                ref.append((t, c))
+        elif f[0] == "ND":
+            nd = f[1] == "1"
+        elif f[0].isdigit() and len(f) >= 3:
+            items = []
+            for it in f[3:]:
+                i, rest = it.split("=", 1)
+                t, c = rest.split(":")
+                items.append((int(i), t, c))
+            obs.append((int(f[0]), f[1] == "1", int(f[2]), items))
+        else:
+            obs.append((p,))
+    return ps, obs, ref, nd
+
+
+def oracle_api(ops, line):
+    """The property's own oracle: page view vs iterator's list (read in a fresh session)."""
+    ps, obs, ref, nd = parse_api(line)
+    if ps is None or ref is None or len(obs) != len(ops):
+        return [("unparsable", line[:300])], None
+    bad = []
+    n = len(ref)
+    reported = {}
+    for op, o in zip(ops, obs):
+        if len(o) == 1:
+            bad.append(("composition-lost", "%s after %s" % (o[0], op)))
+            continue
+        ret, flag, hl, items = o
+        for (i, t, c) in items:
+            if i >= n or ref[i] != (t, c):
+                bad.append(("window", "%s reported %s at index %d, the iterated list has %s" % (op, (t, c), i, ref[i] if i < n else "nothing")))
+            if i in reported and reported[i] != (t, c):
+                bad.append(("stability", "index %d changed from %s to %s" % (i, reported[i], (t, c))))
+            reported[i] = (t, c)
+        if op == "x":
+            if ret == 0:
+                if n != 0:
+                    bad.append(("no-menu", "get_context shows no menu but the list has %d entries" % n))
+                continue
+            pno = ret - 1
+            want = max(0, min(ps, n - pno * ps))
+            if [i for i, _, _ in items] != list(range(pno * ps, pno * ps + want)) or want == 0:
+                bad.append(("window", "page %d shows indices %s, expected %d entries from %d (list length %d)" %
+                            (pno, [i for i, _, _ in items], want, pno * ps, n)))
+            if flag != (pno * ps + ps >= n):
+                bad.append(("last-page-flag", "page %d of size %d over %d entries has is_last_page=%s" % (pno, ps, n, flag)))
+            if not (0 <= hl < max(1, len(items))):
+                bad.append(("highlight", "highlighted %d of %d" % (hl, len(items))))
+        elif op.startswith("i "):
+            _, a, k = op.split()
+            a, k = int(a), int(k)
+            if ret == 1 and [(t, c) for _, t, c in items] != ref[a:a + k]:
+                bad.append(("iterator", "iteration from %d gave %d entries, expected %d" % (a, len(items), len(ref[a:a + k]))))
+            if ret == 0 and n != 0:
+                bad.append(("no-menu", "candidate_list_from_index failed but the list has %d entries" % n))
+    if nd is False:
+        seen, d = {}, []
+        for i, (t, c) in enumerate(ref):
+            if t in seen:
+                d.append((seen[t], i, "".join(chr(int(y)) for y in t.split("."))))
+            seen.setdefault(t, i)
+        bad.append(("duplicate-text", "the schema uses the uniquifier but entries %s have the same text" % d[:4]))
+    return bad, (ps, obs, ref)
+
+
+def model_line_for(ops, ps, ref):
+    """model case over the sampled list: one Fifo holding the implementation's own list, no filter"""
+    cm = {"-": 0}
+    cands = []
+    for t, c in ref:
+        cm.setdefault(c, len(cm))
+        cands.append("%s:%d:4:0:1:0" % (t, cm[c]))
+    return "%d 1 F %d %s - %d %s" % (ps, len(cands), " ".join(cands), len(ops), " ".join(ops)), cm
+
+
+def run_api(ctx, rmodel, exe, b, ncases):
+    rng = random.Random(ctx.seed * 104729 + 40)
+    stats = {}
+    tpl = vlib.stock_workspace("asan")
+    w = vlib.copy_workspace(tpl, os.path.join(ctx.scratch(), "c04api"))
+    with_opencc = os.path.isdir(OPENCC)
+    if with_opencc:
+        shutil.copytree(OPENCC, os.path.join(w, "shared", "opencc"), dirs_exist_ok=True)
+    stats["opencc_data"] = with_opencc
+    cases = api_cases(rng, ncases, with_opencc, stats, long_lists=(ctx.tier == "thorough"))
+    feed = "\n".join("%s %s %s %d %s" % (s, o, k, len(ops), " ".join(ops)) for s, o, k, ops in cases) + "\n"
+    rc, out, err = vlib.sh2([exe, "api", w], stdin=feed, timeout=1500,
+                            env={"ASAN_OPTIONS": "detect_leaks=0:abort_on_error=0", "UBSAN_OPTIONS": "print_stacktrace=1"})
+    lines = [l for l in out.split("\n") if l.strip()]
+    if rc != 0:
+        ctx.violation("api:harness-abort", "the API harness ended abnormally (sanitizer report or crash) rc=%d" % rc,
+                      {"cmd": "%s api <deployed workspace> < cases" % exe,
+                       "case": " ".join(str(x) for x in cases[min(len(lines), len(cases) - 1)][:3]),
+                       "stderr": err[-6000:]}, found_input=True)
+    stats.update({"cases": len(cases), "observed": len(lines), "oracle_fail": 0, "model_mismatch": 0, "candidates_seen": 0,
+                  "with_menu": 0, "max_list": 0})
+    mfeed, mwant = [], []
+    nontrivial = set()
+    for (schema, opts, keys, ops), line in zip(cases, lines):
+        flat = []
+        for o in ops:
+            flat.append(o)
+        bad, parsed = oracle_api(ops, line)
+        if parsed:
+            ps, obs, ref = parsed
+            stats["candidates_seen"] += len(ref)
+            stats["max_list"] = max(stats["max_list"], len(ref))
+            if ref:
+                stats["with_menu"] += 1
+            if len(ref) > ps:
+                nontrivial.add((schema, opts, keys))
+            ml, cm = model_line_for(ops, ps, ref)
+            mfeed.append(ml)
+            mwant.append((schema, opts, keys, ops, obs, cm))
+        seen_keys = set()
+        for key, what in bad:
+            if key in seen_keys:
+                continue
+            seen_keys.add(key)
+            stats["oracle_fail"] += 1
+            cls = "%s:%s:%s" % (schema, opts, key)
+            ctx.violation("api:" + cls, "librime violates the property on a stock schema: " + what,
+                          {"schema": schema, "options": opts, "input_keys": keys, "ops": ops, "observed": line[:3000],
+                           "how": "deploy data/minimal (+ %s as shared/opencc when an option needs OpenCC), select the schema, set the "
+                                  "options, type input_keys, then apply ops (format: harness/c04/c04.cc api mode)" % OPENCC,
+                           "cmd": "echo '%s %s %s %d %s' | %s api <workspace>" % (schema, opts, keys, len(ops), " ".join(ops), exe)},
+                          found_input=True)
+    # extracted model over the sampled lists: every observation (return values, selected index, pages, iterator)
+    if mfeed:
+        rc2, mout, merr = vlib.sh2([rmodel], stdin="\n".join(mfeed) + "\n", timeout=900)
+        for (schema, opts, keys, ops, obs, cm), ml in zip(mwant, mout.split("\n")):
+            mobs, _, _ = parse_obs(ml)
+            inv = {v: k for k, v in cm.items()}
+            canon = []
+            for o in mobs:
+                if len(o) == 1:
+                    canon.append(o)
+                else:
+                    canon.append((o[0], o[1], o[2], [(i, t, inv.get(int(c), "?")) for (i, t, c, _) in o[3]]))
+            if canon != obs:
+                stats["model_mismatch"] += 1
+                if stats["model_mismatch"] == 1:
+                    k = next((j for j, (a, b2) in enumerate(zip(canon, obs)) if a != b2), 0)
+                    ctx.violation("correspondence:c04-api", "model (over the sampled list) and the real API disagree",
+                                  {"schema": schema, "options": opts, "input_keys": keys, "ops": ops, "first_differing_op": k,
+                                   "impl": str(obs[k] if k < len(obs) else None)[:600], "model": str(canon[k] if k < len(canon) else None)[:600]},
+                                  found_input=False)
+    return stats, cases, nontrivial
+
+
 def run(ctx):
     ctx.coverage["trusted_base"] = [
         "Coq 8.16.1 kernel; no native_compute",
@@ -232,20 +474,30 @@ def run(ctx):
     b = vlib.librime_build("asan")
     exe = vlib.cxx_build(os.path.join(vlib.WORK, "bin", "c04"), [os.path.join(vlib.VERIF, "harness", "c04", "c04.cc")],
                          flags="-I%s/src" % b, libs="-L%s/lib -lrime -lglog -Wl,-rpath,%s/lib" % (b, b))
-    n = 1500 if ctx.tier == "quick" else 12000
+    n = 1500 if ctx.tier == "quick" else 20000
     stats, cases, nontrivial = run_unit(ctx, rmodel, exe, n)
+    astats, acases, anontrivial = run_api(ctx, rmodel, exe, b, 200 if ctx.tier == "quick" else 2400)
     ctx.coverage.update({
-        "evaluations": stats["cases"], "distinct_nontrivial": len(nontrivial),
-        "rule": "unit level: random translation trees (depth <= 3) x filter chains x call sequences; non-trivial = the "
-                "translations hold at least two candidates; distinct = distinct case lines",
-        "samples": [c for c, _, _ in cases[3:200:41]],
-        "unit": stats, "exhaustive": False,
+        "evaluations": stats["cases"] + astats["cases"], "distinct_nontrivial": len(nontrivial) + len(anontrivial),
+        "rule": "unit level: random translation trees (depth <= 3: unique/echo/fifo/union/cache/distinct/prefetch/single-char/"
+                "charset) merged in a real Menu x filter chains over {uniquifier, single_char, charset} x call sequences "
+                "(Prepare/CreatePage/GetCandidateAt + real API get_context/highlight/change_page/iterator + Selector keys) "
+                "with indices aimed at 0, size-1, size, size+1 and page boundaries; non-trivial = the translations hold at "
+                "least two candidates; distinct = distinct case lines.  API level: luna_pinyin and cangjie5 of data/minimal "
+                "(options: extended_charset, and with OpenCC data zh_simp/zh_tw/simplification) x generated inputs x call "
+                "sequences, page view vs the iterator's list of a fresh session; non-trivial = the list is longer than one "
+                "page; distinct = distinct (schema, options, input)",
+        "samples": [c for c, _, _ in cases[3:200:41]] + [" ".join([s_, o_, k_] + ops) for s_, o_, k_, ops in acases[1:40:9]],
+        "unit": stats, "api": astats, "exhaustive": False,
+        "mutation_drills": MUTATION_DRILLS,
     })
     if not proof_ok and not ctx.violations:
         ctx.violation("proof:Properties_C04", "a proof obligation of Properties_C04.v no longer checks",
                       {"failed": res["failed"], "forbidden": res.get("forbidden"),
                        "log_tail": res["log"][-3000:] + ((res["props"] or {}).get("log", "")[-3000:])}, found_input=False)
 
+
+MUTATION_DRILLS = []
 
 MANIFEST = {
     "category": "proof",
